@@ -115,7 +115,7 @@ static void run_case(const vh::Case &cs) {
                     vh::t_count = false;
                     long rel = b.found && b.heap && !sh::g_reg.has(b.base, b.serial);
                     f->live = false;
-                    res[i].push_back({(long)i, j, 2, m.news(), m.dels(), rel, f->ok});
+                    res[i].push_back({(long)i, j, 2, m.news(), m.dels(), rel, f->ok, (long)sh::tl_top_dsz});
                 }
                 j++;
             }
